@@ -12,13 +12,19 @@ import threading
 _real_time = time.time
 _real_monotonic = time.monotonic
 
-_state = {"loop": None, "offset": 0.0, "thread": None}
+_state = {"loop": None, "offset": 0.0, "thread": None, "jump": None}
 
 
 def _sim_time():
     loop = _state["loop"]
     if loop is not None and threading.get_ident() == _state["thread"]:
-        return loop._now + _state["offset"]
+        now = loop._now
+        jump = _state["jump"]
+        if jump is not None and now >= jump[0]:
+            # the wall clock was stepped (ntp, suspend / resume) at that
+            # instant of the run; time.monotonic() and the loop's clock go on
+            return now + _state["offset"] + jump[1]
+        return now + _state["offset"]
     return _real_time()
 
 
@@ -35,10 +41,13 @@ def install():
         time.monotonic = _sim_monotonic
 
 
-def activate(loop, wall_offset):
+def activate(loop, wall_offset, jump=None):
+    """jump: None or (loop time, seconds): time.time() is stepped by that
+    many seconds from that instant on"""
     _state["loop"] = loop
     _state["offset"] = float(wall_offset)
     _state["thread"] = threading.get_ident()
+    _state["jump"] = jump
 
 
 def deactivate():
